@@ -453,7 +453,7 @@ def run_server(spec):
     sockp = os.path.join(d, "g.sock")
     cmd = [sys.executable, "-m", "gunicorn", "--chdir", d, "-w", str(spec.get("workers", 2)),
            "-k", spec.get("worker_class", "sync"), "--bind", "unix:" + sockp, "--pid", os.path.join(d, "g.pid"),
-           "--error-logfile", os.path.join(d, "err.log"), "--worker-tmp-dir", "/dev/shm"]
+           "--error-logfile", os.path.join(d, "err.log"), "--worker-tmp-dir", wtmp_dir()]
     envargs = []
     tgt = envargs if spec.get("via_env") else cmd        # via_env: the settings come from GUNICORN_CMD_ARGS
     if spec.get("user") is not None:
